@@ -32,6 +32,12 @@ def verify(sid, wt):
     m = re.search(r"(cargo (?:test|nextest)[^\n`]*)", head)
     run = m.group(1).strip() if m else None
     meta = {"id": sid, "property": sid[:3], "placement": place, "run": run}
+    old_meta = os.path.join(dst, "meta.json")
+    if os.path.exists(old_meta):
+        try:
+            meta["detection"] = json.load(open(old_meta)).get("detection", {})
+        except ValueError:
+            pass
     if not place or not run:
         meta["error"] = "could not find placement/run line in demo.rs"
         json.dump(meta, open(os.path.join(dst, "meta.json"), "w"), indent=1)
@@ -93,12 +99,42 @@ def detect(sid, tier="quick", props=None):
     return 0
 
 
+def table():
+    rows = []
+    for sid in sorted(os.listdir(SEEDED)):
+        mp = os.path.join(SEEDED, sid, "meta.json")
+        if not os.path.exists(mp):
+            continue
+        m = json.load(open(mp))
+        notes = open(os.path.join(SEEDED, sid, "notes.md")).read()
+        patch = open(os.path.join(SEEDED, sid, "patch.diff")).read()
+        files = sorted(set(re.findall(r"^\+\+\+ b/(\S+)", patch, re.M)))
+        det = m.get("detection", {})
+        caught = [(p, d) for p, d in det.items() if d.get("exit") == 1]
+        sigs = []
+        for p, d in caught:
+            sigs += d.get("signatures", [])[:3]
+        kinds = sorted(set("|".join(x.split("|")[1:3]) for x in sigs))[:3]
+        first = next((l.strip("# ").strip() for l in notes.splitlines() if l.strip() and not l.startswith("# C")), "")
+        rows.append("| %s | %s | %s | %s | %s |" % (sid, ", ".join(files), "yes" if m.get("confirmed") else "NO", ", ".join("%s %s" % (p, d.get("tier")) for p, d in caught) or "**missed**", "; ".join(kinds)))
+    out = ["# Seeded property-breaking changes and the checks that catch them", "",
+           "Generated by `tools/seed.py table` from `seeded/*/meta.json`. *confirmed* = the 145 existing tests pass with the change and the",
+           "author's demonstration fails with it and passes without it (re-run here by `tools/seed.py verify`). *caught by* = the property's check",
+           "that exits 1 with the change applied to /repo (`tools/seed.py detect`), with the kinds of signature that fire.", "",
+           "| id | files changed | confirmed | caught by | signatures (kind, operation) |", "|---|---|---|---|---|"] + rows
+    open(os.path.join(ROOT, "design", "seeded.md"), "w").write("\n".join(out) + "\n")
+    print("\n".join(out))
+
+
 if __name__ == "__main__":
     a = sys.argv[1:]
     if a[0] == "verify":
         sys.exit(verify(a[1], a[2]))
     if a[0] == "detect":
         sys.exit(detect(a[1], a[2] if len(a) > 2 else "quick", a[3:] or None))
+    if a[0] == "table":
+        table()
+        sys.exit(0)
     if a[0] == "detect-all":
         for sid in sorted(os.listdir(SEEDED)):
             if os.path.exists(os.path.join(SEEDED, sid, "patch.diff")):
